@@ -6475,6 +6475,7 @@ TableCollection_init(TableCollection *self, PyObject *args, PyObject *kwds)
     self->tables = PyMem_Malloc(sizeof(tsk_table_collection_t));
     if (self->tables == NULL) {
         PyErr_NoMemory();
+        goto out;
     }
     err = tsk_table_collection_init(self->tables, 0);
     if (err != 0) {
@@ -8772,6 +8773,7 @@ TreeSequence_genealogical_nearest_neighbours(
         = PyMem_Malloc(num_reference_sets * sizeof(*reference_set_arrays));
     if (reference_sets == NULL || reference_set_size == NULL
         || reference_set_arrays == NULL) {
+        PyErr_NoMemory();
         goto out;
     }
     memset(reference_set_arrays, 0, num_reference_sets * sizeof(*reference_set_arrays));
@@ -8889,6 +8891,7 @@ TreeSequence_mean_descendants(TreeSequence *self, PyObject *args, PyObject *kwds
         = PyMem_Malloc(num_reference_sets * sizeof(*reference_set_arrays));
     if (reference_sets == NULL || reference_set_size == NULL
         || reference_set_arrays == NULL) {
+        PyErr_NoMemory();
         goto out;
     }
     memset(reference_set_arrays, 0, num_reference_sets * sizeof(*reference_set_arrays));
@@ -9484,6 +9487,7 @@ TreeSequence_allele_frequency_spectrum(
 
     shape = PyMem_Malloc((num_sample_sets + 1) * sizeof(*shape));
     if (shape == NULL) {
+        PyErr_NoMemory();
         goto out;
     }
     sizes = PyArray_DATA(sample_set_sizes_array);
@@ -12547,6 +12551,7 @@ Tree_get_newick(Tree *self, PyObject *args, PyObject *kwds)
     buffer = PyMem_Malloc(buffer_size);
     if (buffer == NULL) {
         PyErr_NoMemory();
+        goto out;
     }
     if (legacy_ms_labels) {
         options |= TSK_NEWICK_LEGACY_MS_LABELS;
